@@ -192,7 +192,9 @@ CLAIMED = {
              "proved to give a multiple of four with room for the terminator, for all name lengths. PARAMETER LIST LENGTH = len(data-out) is the "
              "C03 theorem on the regenerated constructors. All five commands are constructed for generated valid dictionaries on every run and "
              "their CDB / data-out read back by an independent standard decoder (all TransportID kinds, name lengths across padding boundaries, "
-             "non-ASCII names, 0..3 CSCD / segment descriptors of every implemented type, 1..3 mode pages).",
+             "non-ASCII names, 0..3 CSCD / segment descriptors of every implemented type, 1..3 mode pages). The builder of the PERSISTENT RESERVE OUT lists and the iSCSI TransportID builder are REGENERATED as programs of the small Python "
+             "(Gen/PyFuncs.v) and proved: REGISTER AND MOVE / REGISTER+SPEC_I_PT lists carry length fields equal to the TransportID bytes that follow, for any "
+             "number of TransportIDs; the iSCSI TransportID of every ASCII name has an honest, four-aligned ADDITIONAL LENGTH and a NUL-terminated name (C05_py_*).",
         ref="DESIGN.md §4 C05",
         note="Trusted: Coq kernel + vm_compute; translator; Spec/RespFormats.v, Spec/ParamRules.v, tools/spec_params.py (my reading of SPC-4). "
              "Partial: how the builders concatenate descriptors (list assembly in marshall_parameter_list / marshall_dataout / the mode page loop) "
